@@ -268,28 +268,42 @@ def harness_bin(profile="release"):
 
 
 # ------------------------------------------------------------------ running cases
+CHILD_AS_LIMIT = 8 << 30       # address space of one harness / driver process
+CHILD_OUT_LIMIT = 256 << 20    # bytes of output of one harness / driver process
+
+
+def _child_limits():
+    import resource
+    resource.setrlimit(resource.RLIMIT_AS, (CHILD_AS_LIMIT, CHILD_AS_LIMIT))
+    resource.setrlimit(resource.RLIMIT_FSIZE, (CHILD_OUT_LIMIT, CHILD_OUT_LIMIT))
+
+
 def _run_chunk(binp, cases, timeout, abort_tag):
-    """Run one process over the cases; if it dies or hangs, mark the offending case and go on."""
+    """Run one process over the cases; if it dies or hangs, mark the offending case and go on.
+    The child's memory and output are bounded (a runaway case must become an ABORT of that case, never exhaust the machine)."""
+    import tempfile
     outs = []
     i = 0
     while i < len(cases):
         data = ("\n".join(cases[i:]) + "\n").encode()
-        try:
-            p = subprocess.run([binp], input=data, stdout=subprocess.PIPE, stderr=subprocess.DEVNULL, timeout=timeout)
-            lines = p.stdout.decode("utf-8", "replace").split("\n")
-            died = p.returncode != 0
-            tag = abort_tag
-        except subprocess.TimeoutExpired as e:
-            lines = (e.stdout or b"").decode("utf-8", "replace").split("\n")
-            died = True
-            tag = "HANG"
+        with tempfile.TemporaryFile() as fo:
+            try:
+                p = subprocess.run([binp], input=data, stdout=fo, stderr=subprocess.DEVNULL, timeout=timeout, preexec_fn=_child_limits)
+                died = p.returncode != 0
+                tag = abort_tag
+            except subprocess.TimeoutExpired:
+                died = True
+                tag = "HANG"
+            fo.seek(0)
+            lines = fo.read().decode("utf-8", "replace").split("\n")
         if lines and lines[-1] == "":
             lines.pop()
+        elif lines and died:
+            lines.pop()          # a partially written last line cannot be trusted
         need = len(cases) - i
         if len(lines) >= need:
             outs.extend(lines[:need])
             break
-        # a partially written last line cannot be trusted
         outs.extend(lines)
         i += len(lines)
         if not died and len(lines) < need:
@@ -327,6 +341,42 @@ def hexs(b):
 
 def unhex(s):
     return b"" if s in ("-", "") else bytes.fromhex(s)
+
+
+# ------------------------------------------------------------------ memory guard for the oracles
+class memory_guard:
+    """While active, a watchdog thread interrupts the main thread (KeyboardInterrupt) when this process's resident set
+    exceeds `limit` bytes: an oracle that runs away on an unexpected output of changed code must end as a broken check
+    obligation of this property, never exhaust the machine."""
+    def __init__(self, limit=12 << 30):
+        self.limit = limit
+        self.stop = False
+
+    def _rss(self):
+        try:
+            with open("/proc/self/statm") as f:
+                return int(f.read().split()[1]) * os.sysconf("SC_PAGE_SIZE")
+        except Exception:
+            return 0
+
+    def _watch(self):
+        import _thread
+        while not self.stop:
+            if self._rss() > self.limit:
+                sys.stderr.write("memory guard: resident set above %d MiB, interrupting the oracle\n" % (self.limit >> 20))
+                _thread.interrupt_main()
+                return
+            time.sleep(0.25)
+
+    def __enter__(self):
+        import threading
+        self.t = threading.Thread(target=self._watch, daemon=True)
+        self.t.start()
+        return self
+
+    def __exit__(self, *a):
+        self.stop = True
+        return False
 
 
 # ------------------------------------------------------------------ known findings
